@@ -326,6 +326,10 @@ def run (c : Case) : CaseOut := Id.run do
       obs := obs ++ [[implLine impl "etext", implLine impl "sel", ["where", wl]]]
       if isBool && !noCase e && implLine impl "where" == ["where", "rej"] then
         fails := fails ++ [("where-rejected-at-compile", "case-in-where")]
+      if isBool && noCase e && implLine impl "where" != ["where", "ok"] then
+        fails := fails ++ [("where-rejected-at-compile", "none")]
+      if implLine impl "sel" != ["sel", "t"] then
+        fails := fails ++ [("select-rejected-at-compile", "none")]
     | "row" :: cellToks, some e =>
       match cellToks.mapM parseCell with
       | some cells =>
